@@ -112,6 +112,7 @@ class AffineEval:
     def __init__(self, iterate: str, index: str, config: Dict[str, bool]):
         self.V, self.k, self.config = iterate, index, config
         self.env: Dict[str, Aff] = {}
+        self.defs: Dict[str, ast.AST] = {}  # latest plain definition of a local that does not involve the iterate
 
     def is_row(self, e) -> bool:
         """V[k, :] / V[k]"""
@@ -136,6 +137,8 @@ class AffineEval:
             return Aff(ZERO_R, Rat(p_const(Fraction(e.value).limit_denominator(10**9))))
         if isinstance(e, ast.Name):
             if e.id in self.env:
+                if self.env[e.id] is None:
+                    raise Lost(f"`{e.id}` could not be expressed as an affine form of the old row")
                 return self.env[e.id]
             if e.id == self.V:
                 raise Lost("the whole iterate is used outside dot(A[k, :], V) / V[k, :]")
@@ -166,6 +169,8 @@ class AffineEval:
             nm = call_name(e)
             if nm in ("dot", "matmul") and len(e.args) == 2 and is_name(e.args[1], self.V):
                 a0 = e.args[0]
+                if isinstance(a0, ast.Name) and a0.id in self.defs:
+                    a0 = self.defs[a0.id]  # gram_row = A[k, :]; dot(gram_row, V)
                 # dot(A[k, :], V) = sum_j A[k, j] V[j, :]: the coefficient of V[k, :] is A[k, k]
                 if isinstance(a0, ast.Subscript) and isinstance(a0.value, ast.Name) and isinstance(a0.slice, ast.Tuple) and len(a0.slice.elts) == 2 and is_name(a0.slice.elts[0], self.k) and isinstance(a0.slice.elts[1], ast.Slice):
                     diag = f"{a0.value.id}[{self.k}, {self.k}]"
@@ -190,10 +195,18 @@ class AffineEval:
             return self.free(e)
         raise Lost(f"`{src(e)[:60]}`")
 
+    fnode = None  # the analysed function: option tests may be spelled through named flags
+
     def decide(self, t) -> Optional[bool]:
         s = src(t)
         if s in self.config:
             return self.config[s]
+        if self.fnode is not None:
+            from ..common import inline_locals
+
+            s = src(inline_locals(self.fnode, t))
+            if s in self.config:
+                return self.config[s]
         return None
 
     def block(self, stmts):
@@ -213,11 +226,13 @@ class AffineEval:
                     stored = self.ev(s.value)
                     continue
                 if isinstance(t, ast.Name):
+                    self.defs.pop(t.id, None)
+                    if not self.mentions_iterate(s.value) and not any(isinstance(n, ast.Name) and n.id in self.env for n in ast.walk(s.value)):
+                        self.defs[t.id] = s.value
                     try:
                         self.env[t.id] = self.ev(s.value)
                     except Lost:
-                        if any(isinstance(n, ast.Name) and n.id == t.id for n in ast.walk(ast.Module(body=stmts, type_ignores=[])) if isinstance(getattr(n, "ctx", None), ast.Load)):
-                            self.env[t.id] = None  # only an error if it reaches the stored row
+                        self.env[t.id] = None  # only an error if it reaches the stored row
                         continue
             elif isinstance(s, ast.AugAssign) and isinstance(s.target, ast.Name):
                 cur = self.env.get(s.target.id)
@@ -254,6 +269,75 @@ def _env_get(ev: AffineEval, name):
     return v
 
 
+def _inline_helper_calls(f, stmts):
+    """`T = h(a, b, kw=c)` with h a helper nested in f whose body is straight-line code (ifs allowed)
+    ending in its only `return E`, called with plain names / constants: replaced by the body with the
+    parameters substituted, the helper's own locals renamed, and `T = E` -- the same computation,
+    so the update arithmetic can be read where it is used."""
+    import copy
+
+    helpers = getattr(f, "nested", {})
+
+    def expand(st):
+        if not (isinstance(st, ast.Assign) and len(st.targets) == 1 and isinstance(st.value, ast.Call) and isinstance(st.value.func, ast.Name) and st.value.func.id in helpers):
+            return None
+        h = helpers[st.value.func.id]
+        if len(getattr(f, "nested_all", {}).get(h.name, [h])) != 1:
+            return None
+        body = [b for b in h.node.body if not (isinstance(b, ast.Expr) and isinstance(b.value, ast.Constant))]
+        if not body or not isinstance(body[-1], ast.Return) or body[-1].value is None:
+            return None
+        inner = [n for b in body[:-1] for n in ast.walk(b)]
+        if any(isinstance(n, (ast.Return, ast.For, ast.While, ast.Try, ast.With, ast.FunctionDef, ast.Lambda, ast.Yield)) for n in inner):
+            return None
+        a = h.node.args
+        if a.vararg or a.kwarg:
+            return None
+        c = st.value
+        pos = [x.arg for x in a.posonlyargs + a.args]
+        if len(c.args) > len(pos) or any(isinstance(x, ast.Starred) for x in c.args) or any(k.arg is None for k in c.keywords):
+            return None
+        sub = dict(zip(pos, c.args))
+        for k in c.keywords:
+            sub[k.arg] = k.value
+        allp = pos + [x.arg for x in a.kwonlyargs]
+        if any(p_ not in sub for p_ in allp):
+            return None  # defaults in play: leave the call alone
+        if not all(isinstance(v, (ast.Name, ast.Constant)) for v in sub.values()):
+            return None
+        stored = {n.id for b in body for n in ast.walk(b) if isinstance(n, ast.Name) and isinstance(n.ctx, ast.Store)}
+        if stored & set(allp):
+            return None  # a parameter is re-bound inside the helper
+
+        class R(ast.NodeTransformer):
+            def visit_Name(self, n):
+                if n.id in sub and isinstance(n.ctx, ast.Load):
+                    return copy.deepcopy(sub[n.id])
+                if n.id in stored:
+                    return ast.copy_location(ast.Name(id=f"{h.name}__{n.id}", ctx=n.ctx), n)
+                return n
+
+        out = [R().visit(copy.deepcopy(b)) for b in body[:-1]]
+        ret = R().visit(copy.deepcopy(body[-1].value))
+        out.append(ast.copy_location(ast.Assign(targets=[copy.deepcopy(st.targets[0])], value=ret, type_comment=None), st))
+        for o in out:
+            ast.fix_missing_locations(o)
+        return out
+
+    res = []
+    for st in stmts:
+        ex = expand(st)
+        if ex is not None:
+            res.extend(ex)
+            continue
+        if isinstance(st, (ast.If, ast.For, ast.While)):
+            st = copy.copy(st)
+            st.body = _inline_helper_calls(f, st.body)
+            st.orelse = _inline_helper_calls(f, st.orelse)
+        res.append(st)
+    return res
+
+
 def block_independent(ctx: Ctx, rule: str, qname: str, iterate: str, options):
     """options: list of test sources that switch an optional coefficient on"""
     f = ctx.repo.func(qname)
@@ -270,7 +354,13 @@ def block_independent(ctx: Ctx, rule: str, qname: str, iterate: str, options):
                 loops.append(n)
     if not loops:
         raise AnalysisError(f"{rule}: the coordinate loop of {qname} (a for-loop that stores row k of `{iterate}`) was not found; cannot decide")
-    present = {src(t.test) for n in own_scope_nodes(f.node) if isinstance(n, ast.If) for t in [n]}
+    from ..common import inline_locals
+
+    present = set()
+    for n in ast.walk(f.node):
+        if isinstance(n, (ast.If, ast.IfExp)):
+            present.add(src(n.test))
+            present.add(src(inline_locals(f.node, n.test)))
     missing = [o for o in options if o not in present]
     if missing:
         raise AnalysisError(f"{rule}: the option tests {missing} vanished from {qname}; the configuration table is stale")
@@ -281,11 +371,12 @@ def block_independent(ctx: Ctx, rule: str, qname: str, iterate: str, options):
             cfg = dict(zip(options, combo))
             label = ", ".join(f"{o.split(' ')[0]} {'given' if v else 'None'}" for o, v in cfg.items()) or "no options"
             ev = AffineEval(iterate, k, cfg)
+            ev.fnode = f.node
 
             def run(stmts):
                 out = None
                 for s in stmts:
-                    if isinstance(s, ast.If) and src(s.test) not in cfg and any(isinstance(x, ast.Call) and call_name(x) == "index_update" for b in s.body for x in ast.walk(b)):
+                    if isinstance(s, ast.If) and ev.decide(s.test) is None and any(isinstance(x, ast.Call) and call_name(x) == "index_update" for b in s.body for x in ast.walk(b)):
                         r = run(s.body)
                         out = r if r is not None else out
                     else:
@@ -294,7 +385,7 @@ def block_independent(ctx: Ctx, rule: str, qname: str, iterate: str, options):
                 return out
 
             try:
-                stored = run(loop.body)
+                stored = run(_inline_helper_calls(f, loop.body))
                 if stored is None:
                     raise Lost("no store of the updated row was evaluated")
             except Lost as e:
